@@ -20,6 +20,7 @@ VARIABLES tr, i,
           evals, firstEvalT, pendingV,
           progS, progF,
           cancelT, timeoutSeen, retSeen, ret,
+          banner,           \* what the summary said ("passed" | "failed"; "" = no summary seen)
           lastCleanT,       \* when a worker last became free (an iteration's cleanups finished); -1: never
           ninv,             \* light runs: number of invocations of the iteration function, counted by the harness (-1: not told)
           dupSeen,          \* an iteration id was observed twice: bookkeeping keyed by id is unreliable from then on (C03's business)
@@ -31,7 +32,7 @@ VARIABLES tr, i,
           why
 vars == <<tr, i, setupSeen, ids, liveIds, liveH, endedIds, cleaned, succT, failT, sumTicks, lateSum, dropSum,
           stopSeen, limitSeen, evals, firstEvalT, pendingV, progS, progF, cancelT, timeoutSeen, retSeen, ret,
-          mS, mF, mD, mSetup, mSetupRes, labelsBad, stageCur, stageOpen, setupCleanupSeen, rvOK, lmax, skipped, preCancelled, ninv, dupSeen, lastCleanT, why>>
+          mS, mF, mD, mSetup, mSetupRes, labelsBad, stageCur, stageOpen, setupCleanupSeen, rvOK, lmax, skipped, preCancelled, ninv, dupSeen, lastCleanT, banner, why>>
 
 Cfg == T[tr].cfg
 Min(a, b) == IF a < b THEN a ELSE b
@@ -55,7 +56,7 @@ Init == /\ tr \in 1..Len(T) /\ i = 0
         /\ ret = [s |-> 0, f |-> 0, d |-> 0, t |-> 0]
         /\ mS = 0 /\ mF = 0 /\ mD = 0 /\ mSetup = 0 /\ mSetupRes = "" /\ labelsBad = FALSE
         /\ stageCur = 0 /\ stageOpen = FALSE /\ setupCleanupSeen = FALSE /\ rvOK = FALSE /\ lmax = 0 /\ skipped = 0
-        /\ preCancelled = FALSE /\ ninv = -1 /\ dupSeen = FALSE /\ lastCleanT = -1
+        /\ preCancelled = FALSE /\ ninv = -1 /\ dupSeen = FALSE /\ lastCleanT = -1 /\ banner = ""
         /\ why = IF T[tr].err = "" THEN {} ELSE {F("MACHINERY", T[tr].err)}
 
 Unch(vs) == UNCHANGED vs
@@ -278,6 +279,8 @@ Return(e) ==
             <<Cfg.mode # "file" \/ cancelT >= 0 \/ Cfg.maxiter > 0 \/ setupSeen # 1 \/ Cfg.trigdur_us > Cfg.maxdur_us
                   \/ Cfg.file_stages = 0 \/ stageCur = Cfg.file_stages, "C15", "not-every-stage-of-the-plan-was-executed">>,
             <<~Cfg.setup_fail \/ e.s # "", "C06", "failed-setup-did-not-fail-the-run">>,
+            \* the summary was rendered from this result: its banner is this verdict (b2 = passed | failed)
+            <<banner = "" \/ e.b2 = "" \/ banner = e.b2, "C19", "summary-banner-differs-from-the-verdict">>,
             <<Cfg.pool_only \/ setupCleanupSeen, "C06", "setup-cleanup-missing-at-return">>,
             <<Cfg.light \/ ~complete \/ dupSeen \/ cleaned = ids, "C06", "iteration-cleanup-missing-at-return">>,
             <<~Cfg.rendezvous \/ rvOK, "C04", "not-all-workers-could-run-at-once">>,
@@ -320,6 +323,8 @@ After(e) ==
           <<e.b2 = "", "C15", "stage-parameters-left-in-environment">>,
           <<mS = ret.s /\ mF = ret.f /\ mD = ret.d, "C16", "exported-iteration-samples-differ-from-result">>,
           <<mS = ret.s /\ mF = ret.f /\ mD = ret.d, "C01", "exported-iteration-metrics-do-not-carry-the-result-counts">>,
+          \* as many samples as iterations, but some under the other outcome
+          <<mS + mF # ret.s + ret.f \/ mF = ret.f, "C07", "exported-metric-reports-iterations-under-the-wrong-outcome">>,
           <<dropSum = ret.d, "C01", "iterations-reported-dropped-after-the-final-result">>,
           <<mSetup = 1, "C16", "setup-metric-not-exactly-one-sample">>,
           <<(setupSeen = 1) = (mSetupRes = "success"), "C16", "setup-metric-labelled-with-wrong-outcome">>,
@@ -379,6 +384,7 @@ Next == /\ i < Len(T[tr].ev)
         \* set by the one event that changes it; every other event leaves it
         /\ preCancelled' = IF T[tr].ev[i + 1].k = "cancelret" THEN (setupSeen = -1) ELSE preCancelled
         /\ ninv' = IF T[tr].ev[i + 1].k = "invocations" THEN T[tr].ev[i + 1].a ELSE ninv
+        /\ banner' = IF T[tr].ev[i + 1].k = "summary" THEN T[tr].ev[i + 1].s ELSE banner
         /\ lastCleanT' = IF T[tr].ev[i + 1].k = "cleanup" THEN T[tr].ev[i + 1].c ELSE lastCleanT
         /\ dupSeen' = (dupSeen \/ (T[tr].ev[i + 1].k = "start" /\ T[tr].ev[i + 1].a \in ids)
                               \/ (T[tr].ev[i + 1].k = "idrange" /\ T[tr].ev[i + 1].a <= lmax))
